@@ -26,7 +26,7 @@
    completeness theorem of C02 over arbitrary InvD-states); it is checked on the
    implementation for every prefix. *)
 From Coq Require Import NArith List Bool.
-From AQ Require Import Chain.Store Chain.ChainSpec Chain.ChainProofs Chain.ChainWitness Chain.Crash Chain.CrashProofs Chain.ChainReopen.
+From AQ Require Import Chain.Store Chain.ChainSpec Chain.ChainProofs Chain.ChainWitness Chain.Crash Chain.CrashProofs Chain.ChainReopen Chain.CommitOrder Chain.CommitOrderProofs.
 Import ListNotations.
 Local Open Scope N_scope.
 
@@ -91,6 +91,27 @@ Theorem C04_block_data_complete_every_prefix_with_reopen : forall (U : N -> sblo
   forall k, block_data_complete (crash_disk d0 (log_of (run ops (pre_open g))) k).
 Proof. exact every_prefix_with_reopen. Qed.
 Print Assumptions C04_block_data_complete_every_prefix_with_reopen.
+
+(* closure of the trie store: the commit method of trie.Database emits its puts in post-order (children
+   before parents); whatever prefix [p] of that sequence reached the disk - batch
+   boundaries anywhere - every node key in [p] has the keys of all its children in
+   [p] or among the nodes that were on disk before ([d0]).  Premises: nodes with equal
+   hashes have equal children (Merkle), and the references the memory layer treats as
+   already committed are on disk. *)
+Theorem C04_commit_closure_every_prefix : forall (n : tnode) (d0 : list N),
+  merkle n ->
+  (forall h, sub (Stored h) n -> In h d0) ->
+  forall p suf, post n = p ++ suf ->
+  forall h cs, sub (Dirty h cs) n -> In h p ->
+  forall c, In c cs -> In (th c) (d0 ++ p).
+Proof. exact closure_every_prefix. Qed.
+Print Assumptions C04_commit_closure_every_prefix.
+
+(* non-vacuity of the premises, and the order that would break it (node first) *)
+Example C04_commit_order_example :
+  post t3 = [2; 3; 1] /\ pre_order t3 = [1; 2; 3] /\
+  (forall h, sub (Stored h) t3 -> In h [9]) /\ merkle t3.
+Proof. exact t3_orders. Qed.
 
 (* non-vacuity: every crash point of a plain two-batch extension restarts on the
    last head written, with the number index naming it *)
